@@ -84,16 +84,20 @@ def sweep(chk):
     will_fail = bool(fail_at and lens and fail_at <= lens[0])
     if rnd.random() < 0.4 and ((api == 'multiplex' and stop_after is not None) or (will_fail and n_inputs > 1)):
       lens = [n if (k == 0 and will_fail) else UNBOUNDED for k, n in enumerate(lens)]
-    res = _run_api(api, par, lens, buf, stop_after, fail_at, seed)
+    # the mapped function (second stage of a two-stage piter) fails at its k-th element
+    fn_fail = rnd.choice([1, 2, 3]) if (api == 'piter' and rnd.random() < 0.35 and not will_fail and stop_after is None) else 0
+    if fn_fail and n_inputs > 1 and rnd.random() < 0.6:
+      lens = [UNBOUNDED for _ in lens]
+    res = _run_api(api, par, lens, buf, stop_after, fail_at, seed, fn_fail=fn_fail)
     chk.replayed()
     if res:
       bad += 1
       chk.violation(res[0], res[1], dict(kind='piter-sweep', api=api, parallelism=par, lens=lens, buffer=buf,
-                                         stop_after=stop_after, fail_at=fail_at, run_seed=seed))
+                                         stop_after=stop_after, fail_at=fail_at, fn_fail=fn_fail, run_seed=seed))
   chk.coverage['sweep_runs'] = n_runs
 
 
-def _run_api(api, par, lens, buf, stop_after, fail_at, seed):
+def _run_api(api, par, lens, buf, stop_after, fail_at, seed, fn_fail=0):
   import collections
   from harness import qreplay, sched
   with qreplay.installed() as iter_utils:
@@ -121,7 +125,16 @@ def _run_api(api, par, lens, buf, stop_after, fail_at, seed):
             it = iter(it)
             mi = None
           elif api == 'piter':
-            it = iter(iter_utils.piter(lambda xs: map(fn, xs), input_iterators=inputs, max_parallism=par, buffer_size=buf,
+            def mapped(xs):
+              if not fn_fail:
+                return map(fn, xs)
+              def gen():
+                for k, x in enumerate(xs, 1):
+                  if k == fn_fail:
+                    raise qreplay.ProducerError(f'mapped function fails at its element {k}')
+                  yield fn(x)
+              return gen()
+            it = iter(iter_utils.piter(mapped, input_iterators=inputs, max_parallism=par, buffer_size=buf,
                                        thread_pool=pool))
             mi = None
           else:
@@ -156,7 +169,7 @@ def _run_api(api, par, lens, buf, stop_after, fail_at, seed):
       sched.set_active(None)
   cfg = f'{api}:par{par}:inputs{len(lens)}'
   if failure is not None:
-    how = 'early-stop' if stop_after is not None else ('failure' if expect_fail else 'plain')
+    how = 'early-stop' if stop_after is not None else ('failure' if expect_fail else 'function-failure' if fn_fail else 'plain')
     stage = 'two-stage' if (api == 'piter' and len(lens) > 1) else 'one-stage'
     how += ':unbounded-inputs' if UNBOUNDED in lens else ''
     return (f'sweep:{type(failure).__name__}:{api}:{stage}:{how}',
